@@ -141,6 +141,13 @@ def tree_reference(hl_, hr_, rooted):
     return "(?:)|/.*"
 
 
+def _w(word):
+    """ASCII rendering of a witness word for instance names."""
+    if word is None:
+        return "none"
+    return word.replace("/", "S").replace("\\n", "N").replace("(empty)", "empty")
+
+
 def reachable_tree_case(sup, pos):
     # a branch consisting solely of a tree wildcard is rejected by the rule checker (C06.table:
     # singular tree), so `Only` under an enclosing branch does not occur in built globs
@@ -275,6 +282,9 @@ def rule_tree(F, R):
                 if eq:
                     R.ok("C01.tree", inst, "fragment %s = reference %s" % (frag, ref), where, sample=(n % 11 == 0))
                 else:
+                    # the witnesses are part of the instance (hence of the known-finding key): a different
+                    # deviation in the same cell is a different violation
+                    inst = "%s/extra=%s/missing=%s" % (inst, _w(o1), _w(o2))
                     R.fail("C01.tree", inst, "fragment %r differs from the documented language %r (left neighbour=%s, right "
                            "neighbour=%s, rooted=%s): accepted but should not be: %s; rejected but should match: %s" % (
                                frag, ref, h[0], h[1], rooted, o1, o2), where)
@@ -556,10 +566,12 @@ def check_tree_capture(R, inst, frag, node, group, h, where):
     content = group.node
     d = rx.to_dfa(content)
     problems = []
+    witnesses = []
     if h[1]:
         # exists non-empty accepted word not ending with SEP?
         bad = _word_not_ending_with_sep(d)
         if bad is not None:
+            witnesses.append("capture=" + _w(rx.show(bad)))
             problems.append("with a right neighbour the capture can be %r, which does not end at a component boundary "
                             "(half a component is captured, e.g. `/home/nobody/.` for `/**/.var`)" % rx.show(bad))
     if h[0]:
@@ -570,9 +582,10 @@ def check_tree_capture(R, inst, frag, node, group, h, where):
             pd = rx.to_dfa(rx.Node("cat", items=pre))
             bad = _word_not_ending_with_sep(pd, allow_empty=False)
             if bad is not None:
+                witnesses.append("before=" + _w(rx.show(bad)))
                 problems.append("with a left neighbour the text before the capture can be %r, which does not end with a separator" % rx.show(bad))
     if problems:
-        R.fail("C04.content", inst, "fragment %r: %s" % (frag, "; ".join(problems)), where)
+        R.fail("C04.content", inst + "/" + "+".join(witnesses), "fragment %r: %s" % (frag, "; ".join(problems)), where)
     else:
         R.ok("C04.content", inst, "tree capture is a run of complete components", where, sample=False)
 
